@@ -51,7 +51,7 @@ def cmd_import(src, sid):
         if os.path.isfile(os.path.join(src, f)) and not f.endswith(".log"):
             shutil.copy(os.path.join(src, f), os.path.join(d, f))
     m = load_meta(d)
-    m.setdefault("breaks", [sid[:3]])
+    m.setdefault("breaks", [re.search(r"C\d\d", sid).group(0) if re.search(r"C\d\d", sid) else sid[:3]])
     m.setdefault("origin", "sub-agent given only the property text and a scratch worktree")
     save_meta(d, m)
 
